@@ -144,11 +144,18 @@ func (p *pipe) receiver() {
 					// holding the lock, we are guaranteed
 					// to be able to enqueue another
 					// message. (No other pipe can
-					// get in right now.)
+					// get in right now.)  The exception is
+					// an unbuffered queue with nobody
+					// receiving: drop rather than block
+					// while holding the lock.
 					// NB: If we ever do work to break
 					// up the locking, we will need to
 					// revisit this.
-					c.recvQ <- m
+					select {
+					case c.recvQ <- m:
+					default:
+						m.Free()
+					}
 				}
 			}
 		}
